@@ -208,6 +208,9 @@ def run(ctx: Ctx):
         "instants are whole hours (table) or minutes (random rows) in January 2024; the local zone and the zoned kind are Europe/Berlin (+1h)",
         "when the local time zone is set, the reported trigger of a floating or date-valued alarm may be the raw value or its localised instant",
     ]
+    # ------------------------------------------------------------- FRESH: history independence of returned objects (spec/Fresh.tla)
+    from vf import fresh
+    fresh.step(ctx, "C15")
     return ctx.finish(rule=(
         "all 3250 rows of the decision table (4 trigger kinds x ticks 0..3 x three optional instants in {absent,0..3} x local tz) "
         "x Event/Todo x {API-built, parsed, manual Alarms API} x both providers; random minute-resolution rows validated by TLC; "
